@@ -484,6 +484,293 @@ def gen_inputs(rng, n):
     return jobs
 
 
+# --------------------------------------------------------------------------
+# estimate_gridding_opts: defaults from model and survey
+# --------------------------------------------------------------------------
+PASS = ["seasurface", "cell_numbers", "lambda_factor", "lambda_from_center",
+        "max_buffer", "verb", "stretching", "min_width_limits",
+        "min_width_pps", "center_on_edge"]
+
+
+def _same(a, b):
+    import numpy as np
+    if a is None or b is None:
+        return a is None and b is None
+    if isinstance(a, dict) and isinstance(b, dict):
+        return set(a) == set(b) and all(_same(a[k], b[k]) for k in a)
+    if isinstance(a, dict) or isinstance(b, dict):
+        return False
+    try:
+        a_, b_ = np.asarray(a, dtype=float), np.asarray(b, dtype=float)
+        return a_.shape == b_.shape and np.array_equal(a_, b_)
+    except (TypeError, ValueError):
+        if isinstance(a, (list, tuple)) and isinstance(b, (list, tuple)):
+            return len(a) == len(b) and all(_same(x, y) for x, y in zip(a, b))
+        return a == b
+
+
+def _xyz(v):
+    """A triple as the x/y/z dict the function hands on."""
+    if isinstance(v, (list, tuple)) and len(v) == 3:
+        return {'x': v[0], 'y': v[1], 'z': v[2]}
+    return v
+
+
+def _gopts_inst(seed):
+    import warnings
+    warnings.filterwarnings("ignore")
+    import numpy as np
+    import emg3d
+    from emg3d import meshes
+    rng = random.Random(seed)
+    nrng = np.random.default_rng(seed)
+    hx = np.array([300.0, 200, 150, 150, 150, 200, 300, 400])
+    hy = np.array([250.0, 200, 200, 200, 250, 300])
+    hz = np.array([400.0, 300, 200, 200, 100, 500])
+    grid = emg3d.TensorMesh([hx, hy, hz], (-900.0, -700.0, -1500.0))
+    mapping = rng.choice(MAPS)
+    case = rng.choice(["iso", "vti", "tri"])
+    cond = [10**nrng.uniform(-2, 0.5, grid.shape_cells) for _ in range(3)]
+    kw = {"property_x": np.vectorize(lambda c: from_cond(mapping, c))(cond[0])}
+    used = [cond[0]]
+    if case == "tri":
+        kw["property_y"] = np.vectorize(
+            lambda c: from_cond(mapping, c))(cond[1])
+        used.append(cond[1])
+    if case in ("vti", "tri"):
+        kw["property_z"] = np.vectorize(
+            lambda c: from_cond(mapping, c))(cond[2])
+        used.append(cond[2])
+    model = emg3d.Model(grid, mapping=mapping, **kw)
+    nsrc = rng.randint(1, 3)
+    sources = [emg3d.TxElectricDipole(
+        (rng.uniform(-500, 300), rng.uniform(-400, 300),
+         rng.uniform(-1100, -300), rng.uniform(0, 90), rng.uniform(-10, 10)))
+        for _ in range(nsrc)]
+    recs = []
+    for _ in range(rng.randint(1, 4)):
+        if rng.random() < 0.3:
+            recs.append(emg3d.RxElectricPoint(
+                (rng.uniform(-300, 300), rng.uniform(-100, 100),
+                 rng.uniform(-50, 50), 0, 0), relative=True))
+        else:
+            recs.append(emg3d.RxElectricPoint(
+                (rng.uniform(-700, 900), rng.uniform(-600, 500),
+                 rng.uniform(-1300, -200), 0, 0)))
+    freqs = [rng.choice([0.1, 0.5, 1.0, 3.0, 10.0])
+             for _ in range(rng.randint(1, 3))]
+    freqs = sorted(set(freqs))
+    survey = emg3d.Survey(sources, recs, freqs)
+    # ---- what the caller provides
+    g = {}
+    if rng.random() < 0.4:
+        g["frequency"] = rng.choice([0.7, 2.0, -1.0])
+    if rng.random() < 0.3:
+        g["center"] = (rng.uniform(-200, 200), rng.uniform(-100, 100), -600.0)
+    if rng.random() < 0.2:
+        g["mapping"] = rng.choice(MAPS)
+    if rng.random() < 0.25:
+        g["properties"] = rng.choice([0.3, [0.3, 1.0], [0.3, 1.0, 1e8]])
+    prov = ["survey"]*3
+    r = rng.random()
+    if r < 0.35:
+        dom = [[-800.0 - 100*i, 700.0 + 50*i] if rng.random() < 0.6 else None
+               for i in range(3)]
+        if any(d is not None for d in dom):
+            g["domain"] = dict(zip("xyz", dom)) if rng.random() < 0.5 \
+                else tuple(dom)
+            for i in range(3):
+                if dom[i] is not None:
+                    prov[i] = "domain"
+    r = rng.random()
+    if r < 0.3:
+        dist = [[300.0 + 100*i, 500.0] if rng.random() < 0.6 else None
+                for i in range(3)]
+        if any(d is not None for d in dist):
+            g["distance"] = dict(zip("xyz", dist)) if rng.random() < 0.5 \
+                else tuple(dist)
+            for i in range(3):
+                if dist[i] is not None and prov[i] == "survey":
+                    prov[i] = "distance"
+    vecstr = False
+    r = rng.random()
+    if r < 0.2:
+        vs = rng.choice(["x", "xy", "xyz", "z", "yz"])
+        g["vector"] = vs
+        vecstr = True
+        for i, c in enumerate("xyz"):
+            if c in vs and prov[i] == "survey":
+                prov[i] = "vector"
+    elif r < 0.4:
+        vec = [np.linspace(-400.0 - 50*i, 300.0, 8) if rng.random() < 0.6
+               else None for i in range(3)]
+        if any(v is not None for v in vec):
+            g["vector"] = dict(zip("xyz", vec)) if rng.random() < 0.5 \
+                else tuple(vec)
+            for i in range(3):
+                if vec[i] is not None and prov[i] == "survey":
+                    prov[i] = "vector"
+    for k, v in (("seasurface", 0.0), ("cell_numbers", [16, 32, 64]),
+                 ("lambda_factor", 0.7), ("lambda_from_center", True),
+                 ("max_buffer", 20000.0), ("verb", 0),
+                 ("stretching", rng.choice([[1.0, 1.3],
+                                            ([1.0, 1.3], [1.1, 1.5],
+                                             [1.0, 2.0])])),
+                 ("min_width_limits", rng.choice([50.0, (30.0, None, 60.0)])),
+                 ("min_width_pps", rng.choice([4, (2, 3, 5)])),
+                 ("center_on_edge", rng.choice([True, (True, False, True)]))):
+        if rng.random() < 0.25:
+            g[k] = v
+    unknown = rng.random() < 0.05
+    if unknown:
+        g["cell_number"] = [16, 32]
+    given = dict(g)
+    notes = []
+    try:
+        out = meshes.estimate_gridding_opts(dict(g), model, survey)
+        raised = False
+    except TypeError as e:
+        raised = "Unexpected gridding_opts" in str(e)
+        out = None
+        if not raised:
+            raise
+    if unknown:
+        return {"skip": True, "ok": bool(raised), "seed": seed}
+    if out is None:
+        return {"skip": True, "ok": False, "seed": seed}
+    # ---- the harness's own estimates
+    own_f = 10**np.mean(np.log10(freqs))
+    own_c = np.mean([s.center for s in sources], axis=0)
+    mp_name = given.get("mapping", mapping)
+
+    def outer_min(ix, iy, iz):
+        return min(float(np.min(c[ix, iy, iz])) for c in used)
+    sl = slice(None)
+    own_buf = [outer_min(0, sl, sl), outer_min(-1, sl, sl),
+               outer_min(sl, 0, sl), outer_min(sl, -1, sl),
+               outer_min(sl, sl, 0), outer_min(sl, sl, -1)]
+    cmin = min(float(c.min()) for c in used)
+    cmax = max(float(c.max()) for c in used)
+    cls = {}
+    for k in PASS:
+        if k not in out:
+            cls[k] = "absent"
+        elif k in given and _same(out[k], _xyz(given[k])
+                                  if k in ("stretching", "min_width_limits",
+                                           "min_width_pps", "center_on_edge")
+                                  else given[k]):
+            cls[k] = "given"
+        else:
+            cls[k] = "other"
+    m_out = out.get("mapping")
+    cls["mapping"] = "given" if "mapping" in given and m_out == given[
+        "mapping"] else ("model" if m_out == mapping else "other")
+    fo = out.get("frequency")
+    cls["frequency"] = "given" if "frequency" in given and fo == given[
+        "frequency"] else ("survey" if fo is not None and np.isclose(
+            fo, own_f, rtol=1e-12) else "other")
+    co = out.get("center")
+    cls["center"] = "given" if "center" in given and _same(
+        co, given["center"]) else ("survey" if co is not None and np.allclose(
+            co, own_c, rtol=1e-12, atol=1e-9) else "other")
+    po = out.get("properties")
+    if "properties" in given and _same(po, given["properties"]):
+        cls["properties"] = "given"
+    else:
+        ok = po is not None and len(po) == 7
+        if ok:
+            pc = [to_cond(mp_name, float(x)) for x in po]
+            ok = np.allclose(pc[1:], own_buf, rtol=1e-10) and \
+                cmin*(1-1e-10) <= pc[0] <= cmax*(1+1e-10)
+        cls["properties"] = "model" if ok else "other"
+    vo = out.get("vector", "missing")
+    if "vector" not in given:
+        cls["vector"] = "none" if vo is None else "other"
+    elif vecstr:
+        want = {c: (getattr(grid, "nodes_" + c) if c in given["vector"]
+                    else None) for c in "xyz"}
+        cls["vector"] = "grid" if _same(vo, want) else "other"
+    else:
+        cls["vector"] = "given" if _same(vo, _xyz(given["vector"])) \
+            else "other"
+    do = out.get("distance", "missing")
+    if "distance" not in given:
+        cls["distance"] = "none" if do is None else "other"
+    else:
+        cls["distance"] = "given" if _same(do, _xyz(given["distance"])) \
+            else "other"
+    # ---- the domain, per direction
+    dom_cls, widened = [], []
+    dout = out.get("domain")
+    gd = given.get("domain")
+    gd = [gd[c] for c in "xyz"] if isinstance(gd, dict) else gd
+    gv = None
+    if "vector" in given:
+        if vecstr:
+            gv = [getattr(grid, "nodes_" + c) if c in given["vector"] else None
+                  for c in "xyz"]
+        else:
+            v = given["vector"]
+            gv = [v[c] for c in "xyz"] if isinstance(v, dict) else list(v)
+    ext0 = []
+    for i in range(3):
+        pts = [s.center[i] for s in sources]
+        for s_ in sources:
+            pts += [r_.center_abs(s_)[i] for r_ in recs]
+        lo, hi = min(pts), max(pts)
+        d = hi - lo
+        ext0.append([lo - d/10, hi + d/10])
+    for i, c in enumerate("xyz"):
+        dd = None if dout is None else dout[c]
+        w = False
+        if prov[i] == "domain":
+            k = "given" if _same(dd, gd[i]) else "other"
+        elif prov[i] == "distance":
+            k = "none" if dd is None else "other"
+        elif prov[i] == "vector":
+            k = "vector" if dd is not None and np.allclose(
+                dd, [np.min(gv[i]), np.max(gv[i])]) else "other"
+        else:
+            e0 = ext0[i]
+            if dd is None:
+                k = "other"
+            elif np.allclose(dd, e0, rtol=1e-12, atol=1e-9):
+                k = "survey"
+            elif dd[0] <= e0[0] + 1e-9 and dd[1] >= e0[1] - 1e-9:
+                k, w = "survey", True        # widened by a ratio rule
+            else:
+                k = "other"
+        dom_cls.append(k)
+        widened.append(w)
+    # ---- observations on the ratio rules (survey-derived directions)
+    if dout is not None and all(dout[c] is not None for c in "xy") and \
+            all(k != "other" for k in dom_cls[:2]):
+        dx = dout['x'][1] - dout['x'][0]
+        dy = dout['y'][1] - dout['y'][0]
+        # (the widening is rounded to whole metres: one metre of slack)
+        if prov[1] == "survey" and dx/3.0 > dy + 1.0 + 1e-6:
+            notes.append(f"x:y extent {dx:.0f}:{dy:.0f} exceeds 3 although "
+                         f"y was estimated")
+        if prov[0] == "survey" and dy/3.0 > dx + 1.0 + 1e-6 and \
+                not (prov[1] == "survey" and dx/max(dy, 1e-9) > 3):
+            notes.append(f"y:x extent {dy:.0f}:{dx:.0f} exceeds 3 although "
+                         f"x was estimated")
+        for i, c in ((0, 'x'), (1, 'y')):
+            if widened[i]:    # symmetric
+                a = ext0[i][0] - dout[c][0]
+                b = dout[c][1] - ext0[i][1]
+                if abs(a - b) > 1e-6:
+                    notes.append(f"{c}-extent not widened symmetrically")
+    if dout is not None and widened[2]:
+        a = ext0[2][0] - dout['z'][0]
+        b = dout['z'][1] - ext0[2][1]
+        if b <= 0 or abs(a/b - 9.0) > 1e-6:
+            notes.append("z-extent not widened 9 parts down, 1 part up")
+    return {"given": sorted(k for k in given), "vecstr": vecstr,
+            "prov": prov, "out": cls, "dom": dom_cls, "widened": widened,
+            "obs": not notes, "notes": notes, "seed": seed}
+
+
 def jsonable(o):
     import numpy as np
     if isinstance(o, dict):
@@ -528,7 +815,10 @@ def run(tier, replay=None):
         "the candidates the search enumerates (every permitted cell number "
         "and every stretching tried before failing); no independent search "
         "for a mesh is made",
-        "estimate_gridding_opts is not covered"]
+        "estimate_gridding_opts: the origin of every returned value is "
+        "classified by comparison with the given value and with the "
+        "harness's own estimates (documentation); the property of the source "
+        "cell is only required to lie in the model's range"]
     res = C.run_tlc("Gridding", "Gridding.cfg", coverage=True, timeout=1200)
     if C.expect_tlc_ok(rep, "Gridding: 4 cell numbers, <= 3 candidates per "
                        "stretching loop, direct and three directions", res,
@@ -581,6 +871,40 @@ def run(tier, replay=None):
                 f"{results[k]['geo']}",
                 {"job": jsonable(jobs[k]), "trace": t})
     rep.add_traces(len(results) - nbad)
+    # ---- estimate_gridding_opts
+    res = C.run_tlc("GridOpts", "GridOpts.cfg", timeout=300)
+    C.expect_tlc_ok(rep, "GridOpts: decision table of estimate_gridding_opts, "
+                    "all combinations of given keys and provenances", res,
+                    "C16")
+    if replay:
+        gseeds = []
+    else:
+        gseeds = [rng.randrange(10**6)
+                  for _ in range(300 if tier == "quick" else 5000)]
+    with mp.get_context("fork").Pool(C.NCPU) as pool:
+        ginst = pool.map(_gopts_inst, gseeds, chunksize=8)
+    for x in ginst:
+        if x.get("skip") and not x["ok"]:
+            rep.violation(f"C16:gopts:unknown-key:seed={x['seed']}",
+                          "estimate_gridding_opts accepted an unknown key "
+                          "(or failed on a valid input)", x)
+    gi = [x for x in ginst if not x.get("skip")]
+    gbad = dict(C.validate_batch(
+        rep, "GridOptsCode", "GridOptsCode.cfg",
+        [{k: x[k] for k in ("given", "vecstr", "prov", "out", "dom",
+                            "widened", "obs")} for x in gi], "gopts"))
+    rep.add_traces(len(gi) - len(gbad))
+    for i, why in sorted(gbad.items()):
+        x = gi[i]
+        rep.violation(
+            f"C16:gopts:{why}:given={'+'.join(x['given'])};prov="
+            f"{'/'.join(x['prov'])};seed={x['seed']}",
+            f"estimate_gridding_opts: {why}; origin of the returned values "
+            f"{x['out']}, domain {x['dom']}, widened {x['widened']}; "
+            f"{x['notes']}", x)
+    rep.cov["estimate_gridding_opts_instances"] = len(gi)
+    if gi:
+        rep.sample({k: gi[0][k] for k in ("given", "prov", "out", "dom")})
     ends = [r["trace"]["ev"][-1]["what"] for r in results]
     rep.cov["evaluations"] = len(results)
     rep.cov["distinct_nontrivial"] = len({json.dumps(r["trace"]["ev"][:40])
@@ -635,4 +959,21 @@ def run(tier, replay=None):
         if len(cb) != len(muts):
             raise C.MachineryError("canary traces accepted: " + str(
                 sorted(set(range(len(muts))) - cb)))
+        gg = [x for i, x in enumerate(gi) if i not in gbad]
+        gm = []
+        x = copy.deepcopy({k: gg[0][k] for k in (
+            "given", "vecstr", "prov", "out", "dom", "widened", "obs")})
+        x["out"]["frequency"] = "other"
+        gm.append(x)                       # frequency neither given nor mean
+        x = copy.deepcopy({k: gg[1][k] for k in (
+            "given", "vecstr", "prov", "out", "dom", "widened", "obs")})
+        x["dom"][0] = "survey" if x["dom"][0] != "survey" else "given"
+        gm.append(x)                       # domain priority violated
+        cb = {b[0] for b in C.validate_batch(
+            rep, "GridOptsCode", "GridOptsCode.cfg", gm, "canaries",
+            count=False)}
+        for i in range(len(gm)):
+            rep.canary(i in cb)
+        if len(cb) != len(gm):
+            raise C.MachineryError("gopts canaries accepted")
     return rep.finish()
